@@ -34,7 +34,9 @@ def build_tree(world):
     P1 = type(str("P1"), (PB, G), {"signature": sig_of(world["classes"]["P1"]["toks"])})
     P2 = type(str("P2"), (PB, G), {"signature": sig_of(world["classes"]["P2"]["toks"])})
     Q = type(str("Q"), (P1,), {})
-    tree = {"G": G, "P1": P1, "P2": P2, "Q": Q, "V": V}
+    # R: a user subclass that re-uses its parent's NAME with a signature of its own
+    R = type(str("P2"), (P2,), {"signature": sig_of(world["classes"]["R"]["toks"])})
+    tree = {"G": G, "P1": P1, "P2": P2, "Q": Q, "R": R, "V": V}
     for name, c in tree.items():
         mine = [{"k": t["k"], "c": t["c"], "lazy": t["lazy"]} for t in dna.tokens(c.structure())]
         spec = [{"k": t["k"], "c": t["c"], "lazy": t["lazy"]} for t in world["classes"][name]["toks"]]
@@ -80,7 +82,10 @@ def replay_dump(run, cfg):
         run.distinct.add(tuple(map(tuple, hist)))
         if n == 7:
             run.add_sample({"history": hist, "spec_obs": st["obs"], "impl_obs": obs, "impl_cache": cache})
-        if obs != st["obs"] or cache != st["cache"]:
+        # a slot may legitimately be empty (an implementation is free not to cache on the class object);
+        # a slot holding another class's pattern is what the property forbids
+        cache_bad = any(v not in ("none", k) for k, v in cache.items())
+        if obs != st["obs"] or cache_bad:
             run.violation("C06", "C06:ReplayedHistory", "C06:ReplayedHistory|%s" % ("obs" if obs != st["obs"] else "cache"),
                           "history %s on a fresh class tree: the specification says answer %s and cache %s, the code answered %s with cache %s"
                           % (hist, st["obs"], st["cache"], obs, cache),
@@ -219,7 +224,7 @@ def replay_case(rec):
     if case.get("kind") == "replay":
         obs, cache = replay_history(case["world"], case["hist"])
         log("replay: history %s -> obs %s cache %s (spec: %s %s)" % (case["hist"], obs, cache, case["spec_obs"], case["spec_cache"]))
-        return obs != case["spec_obs"] or cache != case["spec_cache"]
+        return obs != case["spec_obs"] or any(v not in ("none", k) for k, v in cache.items())
     from ..core import generic_replay
 
     def ex(r):
